@@ -6,7 +6,12 @@ import PepperModel.Pickle
   outside `T`; `step_frame`: one opcode rewrites only its `targets`;
 * `visit` (the depth-first walk of `canon`) returns a duplicate-free list of reachable non-atomic cells; together with the
   fact that `canon` fails when a kid is missing from that list this makes the list exactly the reachable set;
-* `canon_iso`: equal canonical forms ⇒ isomorphic reachable parts.
+* `canon_iso`: equal canonical forms ⇒ isomorphic reachable parts; `iso_canon`: the converse (with `visit_fuel`: the fuel of
+  `reach` is enough whenever any fuel is);
+* the simulation `Sim` between the pickler's memo and the unpickler's state (memo entries correspond index by index; every
+  memoised cell that is not OPEN — on the pickler's recursion stack — has a new cell with the same tag and related kids),
+  one lemma per `save` case (`leaf_ok`, `save_list_ok`, `tuple_finish`, `tuple_rec_finish`), `save_ok` by induction on
+  the fuel, `iso_of_sim` (nothing open ⇒ the memo correspondence is an isomorphism) and `roundtrip_supported`.
 -/
 namespace Pepper.Pickle
 
@@ -742,15 +747,9 @@ theorem canon_iso {h h' : Heap} {r r' : Ref} {c : Canon} (hc : canon h r = some 
 
 /-! ## the round trip: evaluated check, and the fragments proved for every heap -/
 
-theorem foldl_ge (l : List Cell) : ∀ a : Nat, a ≤ l.foldl (fun a c => a + c.kids.length) a := by
-  induction l with
-  | nil => intro a; exact Nat.le_refl _
-  | cons c cs ih => intro a; exact Nat.le_trans (Nat.le_add_right _ _) (ih _)
-
 theorem visitFuel_ge (h : Heap) : 2 ≤ visitFuel h := by
   unfold visitFuel
-  rw [← Array.foldl_toList]
-  exact foldl_ge _ _
+  exact Nat.le_add_right _ _
 
 /-- the statement of the round trip for one rooted heap -/
 def Roundtrip (h : Heap) (r : Ref) : Prop :=
@@ -830,5 +829,1105 @@ theorem roundtrip_bytes {h : Heap} {r : Ref} {s : String} (hc : h[r]? = some ⟨
   refine ⟨[.bytes s, .memoize, .stop], #[⟨.bytes s, []⟩], 0, _, ?_, ?_, canon_leaf hc rfl, canon_leaf (by simp) rfl⟩
   · simp [dump, dumpWith, dumpFuel, save, hc, atomOp?, memoIdx, indexOf?, bind, Except.bind, pure, Except.pure]
   · simp [run, runWith, runOps, VM.step, VM.alloc, VM.topRef, bind, Except.bind, pure, Except.pure]
+
+/-! ### enough fuel -/
+
+theorem sum_filter_remove (w : Nat → Nat) (p : Nat → Bool) (x : Nat) (hp : p x = true) :
+    ∀ l : List Nat, l.Nodup → x ∈ l →
+      ((l.filter (fun i => p i && i != x)).map w).sum + w x = ((l.filter p).map w).sum := by
+  intro l
+  induction l with
+  | nil => intro _ hx; cases hx
+  | cons a l ih =>
+    intro hnd hx
+    rw [List.nodup_cons] at hnd
+    by_cases hax : a = x
+    · subst hax
+      have hcongr : l.filter (fun i => p i && i != a) = l.filter p := by
+        apply List.filter_congr
+        intro i hi
+        have : i ≠ a := fun e => hnd.1 (e ▸ hi)
+        simp [this]
+      simp [hp, hcongr, Nat.add_comm]
+    · have hxl : x ∈ l := by
+        rcases List.mem_cons.mp hx with e | e
+        · exact absurd e.symm hax
+        · exact e
+      have := ih hnd.2 hxl
+      by_cases hpa : p a = true
+      · simp [hpa, hax]
+        omega
+      · simp [hpa]
+        simpa using this
+
+/-- kids of the cells not yet visited -/
+def restKids (h : Heap) (seen : List Ref) : Nat :=
+  (((List.range h.size).filter (fun i => !seen.contains i)).map (kidsLen h)).sum
+
+theorem restKids_snoc {h : Heap} {seen : List Ref} {x : Ref} {c : Cell} (hc : h[x]? = some c) (hx : seen.contains x = false) :
+    restKids h (seen ++ [x]) + c.kids.length = restKids h seen := by
+  have hlt : x < h.size := by
+    rcases Nat.lt_or_ge x h.size with hl | hl
+    · exact hl
+    · simp [Array.getElem?_eq_none hl] at hc
+  have hk : kidsLen h x = c.kids.length := by simp [kidsLen, hc]
+  unfold restKids
+  have hcongr : (List.range h.size).filter (fun i => !(seen ++ [x]).contains i) =
+      (List.range h.size).filter (fun i => (fun i => !seen.contains i) i && i != x) := by
+    apply List.filter_congr
+    intro i _
+    by_cases e : i = x <;> simp [e]
+  rw [hcongr, ← hk]
+  exact sum_filter_remove (kidsLen h) (fun i => !seen.contains i) x (by simpa using hx) _ List.nodup_range
+    (List.mem_range.mpr hlt)
+
+/-- a successful walk succeeds, with the same result, with any fuel above the potential -/
+theorem visit_fuel {h : Heap} : ∀ (f : Nat) (todo seen o : List Ref), visit h f todo seen = some o →
+    ∀ f2, todo.length + restKids h seen + 1 ≤ f2 → visit h f2 todo seen = some o := by
+  intro f
+  induction f with
+  | zero => intro todo seen o hv; simp [visit] at hv
+  | succ f ih =>
+    intro todo seen o hv f2 hf2
+    obtain ⟨n, rfl⟩ : ∃ n, f2 = n + 1 := ⟨f2 - 1, by omega⟩
+    cases todo with
+    | nil => simp [visit] at hv ⊢; exact hv
+    | cons x todo =>
+      simp only [visit] at hv ⊢
+      split at hv
+      · cases hv
+      · rename_i c hc
+        split at hv
+        · rename_i hcond
+          simp only [hcond, if_true]
+          exact ih todo seen o hv n (by simp at hf2; omega)
+        · rename_i hcond
+          simp only [hcond]
+          simp only [Bool.or_eq_true, not_or, Bool.not_eq_true] at hcond
+          have := restKids_snoc hc hcond.2
+          refine ih _ _ o hv n ?_
+          simp at hf2 ⊢
+          omega
+
+theorem restKids_nil_le (h : Heap) : restKids h [] + 2 = visitFuel h := by
+  have : (List.range h.size).filter (fun i => !([] : List Ref).contains i) = List.range h.size := by
+    rw [List.filter_eq_self]; intro a _; simp
+  unfold restKids visitFuel
+  rw [this, Nat.add_comm]
+
+theorem reach_of_visit {h : Heap} {r : Ref} {f : Nat} {o : List Ref} (hv : visit h f [r] [] = some o) :
+    reach h r = some o := by
+  unfold reach
+  refine visit_fuel f _ _ o hv _ ?_
+  have := restKids_nil_le h
+  simp; omega
+
+
+/-! ### isomorphic rooted heaps have the same canonical form (converse of `canon_iso`) -/
+
+theorem reach_nonAtom {h : Heap} {r x : Ref} (hx : Reach h r x) : NonAtom h x := by
+  cases hx <;> assumption
+
+theorem Pointwise.append {α β : Type} {R : α → β → Prop} {a1 a2 : List α} {b1 b2 : List β}
+    (h1 : Pointwise R a1 b1) (h2 : Pointwise R a2 b2) : Pointwise R (a1 ++ a2) (b1 ++ b2) := by
+  induction h1 with
+  | nil => exact h2
+  | cons hab _ ih => exact Pointwise.cons hab ih
+
+theorem Pointwise.mem_iff {R : Ref → Ref → Prop} (hf : ∀ x y y', R x y → R x y' → y = y')
+    (hi : ∀ x x' y, R x y → R x' y → x = x') {l l' : List Ref} (hp : Pointwise R l l') {x x' : Ref} (hx : R x x') :
+    x ∈ l ↔ x' ∈ l' := by
+  induction hp with
+  | nil => simp
+  | cons hab htl ih =>
+    rename_i a b as bs
+    constructor
+    · intro hm
+      rcases List.mem_cons.mp hm with e | e
+      · subst e; rw [hf _ _ _ hx hab]; exact List.mem_cons_self
+      · exact List.mem_cons_of_mem _ (ih.mp e)
+    · intro hm
+      rcases List.mem_cons.mp hm with e | e
+      · subst e; rw [hi _ _ _ hx hab]; exact List.mem_cons_self
+      · exact List.mem_cons_of_mem _ (ih.mpr e)
+
+theorem visit_iso {h h' : Heap} {r r' : Ref} {R : Ref → Ref → Prop} (iso : Iso h r h' r' R) :
+    ∀ (f : Nat) (todo todo' seen seen' o : List Ref), Pointwise (RelRef h h' R) todo todo' → Pointwise R seen seen' →
+      visit h f todo seen = some o → ∃ o', visit h' f todo' seen' = some o' ∧ Pointwise R o o' := by
+  intro f
+  induction f with
+  | zero => intro todo todo' seen seen' o _ _ hv; simp [visit] at hv
+  | succ f ih =>
+    intro todo todo' seen seen' o ht hs hv
+    cases ht with
+    | nil => simp [visit] at hv ⊢; subst hv; exact hs
+    | cons hrel htl =>
+      rename_i x x' t t'
+      simp only [visit] at hv ⊢
+      split at hv
+      · cases hv
+      · rename_i c hc
+        rcases hrel with ⟨c0, c0', h0, h0', ha, ha', _⟩ | hR
+        · rw [hc] at h0; cases h0
+          simp only [h0', ha, ha', Bool.true_or, if_true] at hv ⊢
+          exact ih _ _ _ _ o htl hs hv
+        · obtain ⟨cx, cy, hcx, hcy, _, hkids⟩ := iso.cells x x' hR
+          rw [hc] at hcx; cases hcx
+          obtain ⟨hrx, hry⟩ := iso.dom x x' hR
+          obtain ⟨c1, hc1, hna⟩ := reach_nonAtom hrx
+          rw [hc] at hc1; cases hc1
+          obtain ⟨c2, hc2, hna'⟩ := reach_nonAtom hry
+          rw [hcy] at hc2; cases hc2
+          have hcont : seen.contains x = seen'.contains x' := by
+            have := Pointwise.mem_iff iso.functional iso.injective hs hR
+            by_cases hm : x ∈ seen
+            · simp [hm, this.mp hm]
+            · have hm' : x' ∉ seen' := fun e => hm (this.mpr e)
+              simp [hm, hm']
+          simp only [hcy, hna, hna', Bool.false_or, hcont] at hv ⊢
+          split at hv
+          · rename_i hcond
+            simp only [hcond, if_true]
+            exact ih _ _ _ _ o htl hs hv
+          · rename_i hcond
+            simp only [hcond]
+            exact ih _ _ _ _ o (Pointwise.append hkids htl)
+              (Pointwise.append hs (Pointwise.cons hR Pointwise.nil)) hv
+
+theorem indexOf?_rel {R : Ref → Ref → Prop} (hf : ∀ x y y', R x y → R x y' → y = y')
+    (hi : ∀ x x' y, R x y → R x' y → x = x') {o o' : List Ref} (hp : Pointwise R o o') {k k' : Ref} (hk : R k k') :
+    indexOf? k o = indexOf? k' o' := by
+  induction hp with
+  | nil => rfl
+  | cons hab htl ih =>
+    rename_i a b as bs
+    simp only [indexOf?]
+    by_cases e : a = k
+    · subst e
+      have : b = k' := hf _ _ _ hab hk
+      simp [this]
+    · have : b ≠ k' := fun e' => e (hi _ _ _ hab (e' ▸ hk))
+      simp [e, this, ih]
+
+theorem rename_rel {h h' : Heap} {r r' : Ref} {R : Ref → Ref → Prop} (iso : Iso h r h' r' R) {o o' : List Ref}
+    (hp : Pointwise R o o') {k k' : Ref} (hk : RelRef h h' R k k') : rename h o k = rename h' o' k' := by
+  rcases hk with ⟨c, c', hc, hc', ha, ha', ht⟩ | hR
+  · simp [rename, hc, hc', ha, ha', ht]
+  · obtain ⟨hrx, hry⟩ := iso.dom k k' hR
+    obtain ⟨c1, hc1, hna⟩ := reach_nonAtom hrx
+    obtain ⟨c2, hc2, hna'⟩ := reach_nonAtom hry
+    simp [rename, hc1, hc2, hna, hna', indexOf?_rel iso.functional iso.injective hp hR]
+
+theorem mapOpt_pointwise {α α' β : Type} {f : α → Option β} {g : α' → Option β} {l : List α} {l' : List α'}
+    (hp : Pointwise (fun a b => f a = g b) l l') : mapOpt f l = mapOpt g l' := by
+  induction hp with
+  | nil => rfl
+  | cons hab _ ih => simp only [mapOpt, hab, ih]
+
+theorem Pointwise.imp {α β : Type} {R S : α → β → Prop} (hRS : ∀ a b, R a b → S a b) {l : List α} {l' : List β}
+    (hp : Pointwise R l l') : Pointwise S l l' := by
+  induction hp with
+  | nil => exact Pointwise.nil
+  | cons hab _ ih => exact Pointwise.cons (hRS _ _ hab) ih
+
+theorem canonCell_rel {h h' : Heap} {r r' : Ref} {R : Ref → Ref → Prop} (iso : Iso h r h' r' R) {o o' : List Ref}
+    (hp : Pointwise R o o') {x x' : Ref} (hx : R x x') : canonCell h o x = canonCell h' o' x' := by
+  obtain ⟨cx, cy, hcx, hcy, htag, hkids⟩ := iso.cells x x' hx
+  simp only [canonCell, hcx, hcy, htag]
+  have := mapOpt_pointwise (f := rename h o) (g := rename h' o')
+    (Pointwise.imp (fun a b hab => rename_rel iso hp hab) hkids)
+  rw [this]
+
+/-- **converse of T1.**  Isomorphic rooted heaps have the same canonical form (when the first has one). -/
+theorem iso_canon {h h' : Heap} {r r' : Ref} {R : Ref → Ref → Prop} (iso : Iso h r h' r' R) {c : Canon}
+    (hc : canon h r = some c) : canon h' r' = some c := by
+  obtain ⟨o, ho, hroot, hcells⟩ := canon_some hc
+  obtain ⟨o', hv', hoo⟩ := visit_iso iso _ [r] [r'] [] [] o (Pointwise.cons iso.root Pointwise.nil) Pointwise.nil ho
+  have ho' := reach_of_visit hv'
+  have h1 : rename h' o' r' = some c.root := by rw [← rename_rel iso hoo iso.root]; exact hroot
+  have h2 : mapOpt (canonCell h' o') o' = some c.cells := by
+    have := mapOpt_pointwise (f := canonCell h o) (g := canonCell h' o')
+      (Pointwise.imp (fun a b hab => canonCell_rel iso hoo hab) hoo)
+    rw [← this]; exact hcells
+  simp [canon, ho', h1, h2]
+
+
+/-! ## the simulation between the pickler and the unpickler -/
+
+section
+variable (h : Heap)
+
+/-- old reference `k` and new reference `k'` denote the same thing: equal atoms, or the same memo index -/
+def Rel (m : PMemo) (H : Heap) (M : Array Ref) (k k' : Ref) : Prop :=
+  (∃ c c', h[k]? = some c ∧ H[k']? = some c' ∧ c.isAtom = true ∧ c'.isAtom = true ∧ c.tag = c'.tag) ∨
+  (∃ i : Nat, m[i]? = some k ∧ M[i]? = some k')
+
+/-- the new cell has the old cell's tag and related kids -/
+def Complete (m : PMemo) (H : Heap) (M : Array Ref) (x y : Ref) : Prop :=
+  ∃ c c', h[x]? = some c ∧ H[y]? = some c' ∧ c'.tag = c.tag ∧ Pointwise (Rel h m H M) c.kids c'.kids
+
+def opens : Tag → Bool
+  | .list | .dict | .obj .. => true
+  | _ => false
+
+structure Sim (m : PMemo) (H : Heap) (M : Array Ref) (O : List Ref) : Prop where
+  len : m.length = M.size
+  nodup : m.Nodup
+  inj : ∀ (i j : Nat) (y : Ref), M[i]? = some y → M[j]? = some y → i = j
+  nonatom : ∀ x, x ∈ m → NonAtom h x
+  nonatom' : ∀ (i : Nat) (y : Ref), M[i]? = some y → ∃ c', H[y]? = some c' ∧ c'.isAtom = false
+  complete : ∀ (i : Nat) (x y : Ref), m[i]? = some x → M[i]? = some y → x ∉ O → Complete h m H M x y
+  openKind : ∀ x, x ∈ O → ∃ c, h[x]? = some c ∧ opens c.tag = true
+
+/-- memo prefix -/
+def MPre (m m' : PMemo) : Prop := ∀ (i : Nat) (z : Ref), m[i]? = some z → m'[i]? = some z
+
+structure Ext (H : Heap) (M : Array Ref) (H' : Heap) (M' : Array Ref) : Prop where
+  size : H.size ≤ H'.size
+  memo : ∀ (i : Nat) (y : Ref), M[i]? = some y → M'[i]? = some y
+  atoms : ∀ (k : Nat) (c : Cell), H[k]? = some c → c.isAtom = true → H'[k]? = some c
+
+theorem MPre.refl (m : PMemo) : MPre m m := fun _ _ h => h
+theorem MPre.trans {a b c : PMemo} (h1 : MPre a b) (h2 : MPre b c) : MPre a c := fun i z h => h2 i z (h1 i z h)
+theorem MPre.append (m t : PMemo) : MPre m (m ++ t) := fun i z hz => by
+  have hl : i < m.length := (List.getElem?_eq_some_iff.mp hz).1
+  rw [List.getElem?_append_left hl]; exact hz
+
+theorem Ext.refl (H : Heap) (M : Array Ref) : Ext H M H M := ⟨Nat.le_refl _, fun _ _ h => h, fun _ _ h _ => h⟩
+theorem Ext.trans {H1 H2 H3 : Heap} {M1 M2 M3 : Array Ref} (a : Ext H1 M1 H2 M2) (b : Ext H2 M2 H3 M3) : Ext H1 M1 H3 M3 :=
+  ⟨Nat.le_trans a.size b.size, fun i y h => b.memo i y (a.memo i y h), fun k c h ha => b.atoms k c (a.atoms k c h ha) ha⟩
+
+variable {h}
+
+theorem Rel.mono {m m' : PMemo} {H H' : Heap} {M M' : Array Ref} {k k' : Ref} (hr : Rel h m H M k k')
+    (hm : MPre m m') (he : Ext H M H' M') : Rel h m' H' M' k k' := by
+  rcases hr with ⟨c, c', hc, hc', ha, ha', ht⟩ | ⟨i, hi, hi'⟩
+  · exact Or.inl ⟨c, c', hc, he.atoms _ _ hc' ha', ha, ha', ht⟩
+  · exact Or.inr ⟨i, hm i k hi, he.memo i k' hi'⟩
+
+theorem Complete.mono {m m' : PMemo} {H H' : Heap} {M M' : Array Ref} {x y : Ref} (hc : Complete h m H M x y)
+    (hm : MPre m m') (he : Ext H M H' M') (hy : H'[y]? = H[y]?) : Complete h m' H' M' x y := by
+  obtain ⟨c, c', h1, h2, h3, h4⟩ := hc
+  exact ⟨c, c', h1, by rw [hy]; exact h2, h3, Pointwise.imp (fun a b hab => Rel.mono hab hm he) h4⟩
+
+/-- allocate a cell (memo unchanged) -/
+theorem Sim.alloc {m : PMemo} {H : Heap} {M : Array Ref} {O : List Ref} (s : Sim h m H M O) (c : Cell) :
+    Sim h m (H.push c) M O ∧ Ext H M (H.push c) M := by
+  have hext : Ext H M (H.push c) M := ⟨by simp, fun _ _ h => h, fun k c0 hk _ => by
+    have hl : k < H.size := by
+      rcases Nat.lt_or_ge k H.size with hl | hl
+      · exact hl
+      · simp [Array.getElem?_eq_none hl] at hk
+    simp [Array.getElem?_push, Nat.ne_of_lt hl, hk]⟩
+  have old : ∀ (i : Nat) (y : Ref), M[i]? = some y → (H.push c)[y]? = H[y]? := by
+    intro i y hy
+    obtain ⟨c', hc', _⟩ := s.nonatom' i y hy
+    have hl : y < H.size := by
+      rcases Nat.lt_or_ge y H.size with hl | hl
+      · exact hl
+      · simp [Array.getElem?_eq_none hl] at hc'
+    simp [Array.getElem?_push, Nat.ne_of_lt hl]
+  refine ⟨⟨s.len, s.nodup, s.inj, s.nonatom, ?_, ?_, s.openKind⟩, hext⟩
+  · intro i y hy
+    rw [old i y hy]; exact s.nonatom' i y hy
+  · intro i x y hx hy hO
+    exact (s.complete i x y hx hy hO).mono (MPre.refl _) hext (old i y hy)
+
+
+theorem snoc_get {α : Type} {l : List α} {a z : α} {i : Nat} (hz : (l ++ [a])[i]? = some z) :
+    (i < l.length ∧ l[i]? = some z) ∨ (i = l.length ∧ z = a) := by
+  rcases Nat.lt_or_ge i l.length with hl | hl
+  · rw [List.getElem?_append_left hl] at hz; exact Or.inl ⟨hl, hz⟩
+  · rw [List.getElem?_append_right hl] at hz
+    rcases Nat.eq_or_lt_of_le hl with e | e
+    · subst e; simp at hz; exact Or.inr ⟨rfl, hz.symm⟩
+    · have : i - l.length ≠ 0 := by omega
+      cases hq : i - l.length with
+      | zero => exact absurd hq this
+      | succ n => rw [hq] at hz; simp at hz
+
+theorem push_get {α : Type} {l : Array α} {a z : α} {i : Nat} (hz : (l.push a)[i]? = some z) :
+    (i < l.size ∧ l[i]? = some z) ∨ (i = l.size ∧ z = a) := by
+  rw [Array.getElem?_push] at hz
+  split at hz
+  · rename_i e; cases hz; exact Or.inr ⟨e, rfl⟩
+  · rename_i e
+    have hl : i < l.size := by
+      rcases Nat.lt_or_ge i l.size with hl | hl
+      · exact hl
+      · simp [Array.getElem?_eq_none hl] at hz
+    exact Or.inl ⟨hl, hz⟩
+
+theorem get_lt {H : Heap} {y : Ref} {c : Cell} (hc : H[y]? = some c) : y < H.size := by
+  rcases Nat.lt_or_ge y H.size with hl | hl
+  · exact hl
+  · simp [Array.getElem?_eq_none hl] at hc
+
+theorem aget_lt {M : Array Ref} {i : Nat} {y : Ref} (hc : M[i]? = some y) : i < M.size := by
+  rcases Nat.lt_or_ge i M.size with hl | hl
+  · exact hl
+  · simp [Array.getElem?_eq_none hl] at hc
+
+theorem Ext.pushMemo (H : Heap) (M : Array Ref) (y : Ref) : Ext H M H (M.push y) :=
+  ⟨Nat.le_refl _, fun i z hz => by
+    have := aget_lt hz
+    simp [Array.getElem?_push, Nat.ne_of_lt this, hz], fun _ _ h _ => h⟩
+
+/-- memoise `x ↦ y` -/
+theorem Sim.memoize {m : PMemo} {H : Heap} {M : Array Ref} {O : List Ref} (s : Sim h m H M O) {x y : Ref} {c' : Cell}
+    (hx : x ∉ m) (hna : NonAtom h x) (hy : H[y]? = some c') (hya : c'.isAtom = false)
+    (hfresh : ∀ i : Nat, M[i]? ≠ some y)
+    (hc : x ∉ O → Complete h (m ++ [x]) H (M.push y) x y) :
+    Sim h (m ++ [x]) H (M.push y) O := by
+  have hext := Ext.pushMemo H M y
+  have hpre := MPre.append m [x]
+  refine ⟨by simp [s.len], ?_, ?_, ?_, ?_, ?_, s.openKind⟩
+  · rw [List.nodup_append]
+    refine ⟨s.nodup, by simp, ?_⟩
+    intro a ha b hb e
+    simp at hb; subst hb; subst e; exact hx ha
+  · intro i j z hi hj
+    rcases push_get hi with ⟨_, hi2⟩ | ⟨ei, ez⟩ <;> rcases push_get hj with ⟨_, hj2⟩ | ⟨ej, ez'⟩
+    · exact s.inj i j z hi2 hj2
+    · subst ez'; exact absurd hi2 (hfresh i)
+    · subst ez; exact absurd hj2 (hfresh j)
+    · rw [ei, ej]
+  · intro a ha
+    rcases List.mem_append.mp ha with ha | ha
+    · exact s.nonatom a ha
+    · simp at ha; subst ha; exact hna
+  · intro i z hz
+    rcases push_get hz with ⟨_, hz⟩ | ⟨_, ez⟩
+    · exact s.nonatom' i z hz
+    · subst ez; exact ⟨c', hy, hya⟩
+  · intro i a z ha hz hO
+    rcases snoc_get ha with ⟨hl, ha⟩ | ⟨ei, ea⟩
+    · rcases push_get hz with ⟨_, hz⟩ | ⟨ei', _⟩
+      · exact (s.complete i a z ha hz hO).mono hpre hext rfl
+      · rw [s.len] at hl; omega
+    · rcases push_get hz with ⟨hl', _⟩ | ⟨_, ez⟩
+      · rw [← s.len] at hl'; omega
+      · subst ea; subst ez; exact hc hO
+
+/-- regard `x` as open -/
+theorem Sim.open {m : PMemo} {H : Heap} {M : Array Ref} {O : List Ref} (s : Sim h m H M O) {x : Ref} {c : Cell}
+    (hc : h[x]? = some c) (ho : opens c.tag = true) : Sim h m H M (x :: O) :=
+  ⟨s.len, s.nodup, s.inj, s.nonatom, s.nonatom', fun i a z ha hz hO => s.complete i a z ha hz (fun e => hO (List.mem_cons_of_mem _ e)),
+   fun a ha => by
+    rcases List.mem_cons.mp ha with e | e
+    · subst e; exact ⟨c, hc, ho⟩
+    · exact s.openKind a e⟩
+
+theorem Rel.set {m : PMemo} {H : Heap} {M : Array Ref} {k k' y : Ref} {c0 cn : Cell} (hr : Rel h m H M k k')
+    (h0 : H[y]? = some c0) (ha0 : c0.isAtom = false) : Rel h m (H.setIfInBounds y cn) M k k' := by
+  rcases hr with ⟨c, c', hc, hc', ha, ha', ht⟩ | hm
+  · refine Or.inl ⟨c, c', hc, ?_, ha, ha', ht⟩
+    have : y ≠ k' := by
+      intro e; subst e; rw [h0] at hc'; cases hc'; rw [ha0] at ha'; cases ha'
+    simp [this, hc']
+  · exact Or.inr hm
+
+/-- complete the open cell `x ↦ y` by rewriting `y` -/
+theorem Sim.close {m : PMemo} {H : Heap} {M : Array Ref} {O : List Ref} {x y : Ref} {i : Nat} {cn : Cell}
+    (s : Sim h m H M (x :: O)) (hi : m[i]? = some x) (hi' : M[i]? = some y) (hcn : cn.isAtom = false)
+    (hc : Complete h m (H.setIfInBounds y cn) M x y) : Sim h m (H.setIfInBounds y cn) M O := by
+  obtain ⟨c0, h0, ha0⟩ := s.nonatom' i y hi'
+  refine ⟨s.len, s.nodup, s.inj, s.nonatom, ?_, ?_, fun a ha => s.openKind a (List.mem_cons_of_mem _ ha)⟩
+  · intro j z hz
+    by_cases e : y = z
+    · subst e; exact ⟨cn, by simp [get_lt h0], hcn⟩
+    · obtain ⟨c', hc', ha'⟩ := s.nonatom' j z hz
+      exact ⟨c', by simp [e, hc'], ha'⟩
+  · intro j a z ha hz hO
+    by_cases e : a = x
+    · subst e
+      have : j = i := by
+        have hj := (List.getElem?_eq_some_iff.mp ha)
+        have hi2 := (List.getElem?_eq_some_iff.mp hi)
+        exact nodup_index_unique s.nodup ha hi
+      subst this
+      rw [hi'] at hz; cases hz
+      exact hc
+    · have hne : y ≠ z := by
+        intro e'; subst e'
+        have := s.inj i j y hi' hz
+        subst this
+        rw [hi] at ha; cases ha; exact e rfl
+      obtain ⟨c, c', h1, h2, h3, h4⟩ := s.complete j a z ha hz (by simp [e, hO])
+      exact ⟨c, c', h1, by simp [hne, h2], h3, Pointwise.imp (fun p q hpq => Rel.set hpq h0 ha0) h4⟩
+
+
+theorem Pointwise.length_eq {α β : Type} {R : α → β → Prop} {l : List α} {l' : List β} (hp : Pointwise R l l') :
+    l.length = l'.length := by
+  induction hp with
+  | nil => rfl
+  | cons _ _ ih => simp [ih]
+
+/-! ### running emitted opcodes -/
+
+theorem runOps_cons {cfg : Cfg} {op : Op} {rest : List Op} {v v' : VM} (hne : op ≠ .stop) (hs : v.step cfg op = .ok v') :
+    runOps cfg (op :: rest) v = runOps cfg rest v' := by
+  cases op <;> first | exact absurd rfl hne | simp [runOps, hs, bind, Except.bind]
+
+structure Post (h : Heap) (m : PMemo) (v : VM) (O : List Ref) (ops : List Op) (m' : PMemo) (v' : VM) : Prop where
+  run : ∀ rest, runOps {} (ops ++ rest) v = runOps {} rest v'
+  sim : Sim h m' v'.heap v'.memo O
+  pre : MPre m m'
+  ext : Ext v.heap v.memo v'.heap v'.memo
+  frame : ∀ i, i < v.heap.size → v'.heap[i]? = v.heap[i]?
+
+/-- what `save x` must achieve from any simulating state -/
+def SaveOK (h : Heap) (sv : Saver) : Prop :=
+  ∀ x m ops m', sv x m = .ok (ops, m') → ∀ (v : VM) (O : List Ref), Sim h m v.heap v.memo O →
+    ∃ v' y, Post h m v O ops m' v' ∧ v'.stack = .ref y :: v.stack ∧ Rel h m' v'.heap v'.memo x y
+
+theorem Post.refl {m : PMemo} {v : VM} {O : List Ref} (s : Sim h m v.heap v.memo O) : Post h m v O [] m v :=
+  ⟨fun _ => rfl, s, MPre.refl _, Ext.refl _ _, fun _ _ => rfl⟩
+
+theorem Post.trans {m m1 m2 : PMemo} {v v1 v2 : VM} {O : List Ref} {o1 o2 : List Op}
+    (p1 : Post h m v O o1 m1 v1) (p2 : Post h m1 v1 O o2 m2 v2) : Post h m v O (o1 ++ o2) m2 v2 :=
+  ⟨fun rest => by rw [List.append_assoc, p1.run, p2.run], p2.sim, p1.pre.trans p2.pre, p1.ext.trans p2.ext,
+   fun i hi => by rw [p2.frame i (Nat.lt_of_lt_of_le hi p1.ext.size), p1.frame i hi]⟩
+
+theorem saveAll_sim {sv : Saver} (ih : SaveOK h sv) : ∀ (ks : List Ref) (m : PMemo) (ops : List Op) (m' : PMemo),
+    saveAll sv ks m = .ok (ops, m') → ∀ (v : VM) (O : List Ref), Sim h m v.heap v.memo O →
+    ∃ v' ys, Post h m v O ops m' v' ∧ v'.stack = (ys.reverse.map Item.ref) ++ v.stack ∧
+      Pointwise (Rel h m' v'.heap v'.memo) ks ys := by
+  intro ks
+  induction ks with
+  | nil =>
+    intro m ops m' hs v O s
+    simp [saveAll] at hs
+    obtain ⟨rfl, rfl⟩ := hs
+    exact ⟨v, [], Post.refl s, by simp, Pointwise.nil⟩
+  | cons k ks ihk =>
+    intro m ops m' hs v O s
+    simp only [saveAll, bind, Except.bind] at hs
+    split at hs
+    · cases hs
+    · rename_i r1 h1
+      obtain ⟨o1, m1⟩ := r1
+      simp only at hs
+      split at hs
+      · cases hs
+      · rename_i r2 h2
+        obtain ⟨o2, m2⟩ := r2
+        simp only [pure, Except.pure] at hs
+        cases hs
+        obtain ⟨v1, y1, p1, st1, r1⟩ := ih k m o1 m1 h1 v O s
+        obtain ⟨v2, ys, p2, st2, r2⟩ := ihk m1 o2 _ h2 v1 O p1.sim
+        refine ⟨v2, y1 :: ys, p1.trans p2, ?_, Pointwise.cons (r1.mono p2.pre p2.ext) r2⟩
+        rw [st2, st1]; simp
+
+theorem atomOp?_some {c : Cell} {op : Op} (ha : atomOp? c = some op) :
+    c.isAtom = true ∧ (Cell.mk c.tag []).isAtom = true ∧ op ≠ .stop ∧ ∀ v : VM, v.step {} op = .ok (v.alloc ⟨c.tag, []⟩) := by
+  obtain ⟨t, ks⟩ := c
+  cases t <;> simp [atomOp?] at ha
+  case none => subst ha; exact ⟨rfl, rfl, by simp, fun _ => rfl⟩
+  case bool b => cases b <;> simp at ha <;> subst ha <;> exact ⟨rfl, rfl, by simp, fun _ => rfl⟩
+  case int z => subst ha; exact ⟨rfl, rfl, by simp, fun _ => rfl⟩
+  case float z => subst ha; exact ⟨rfl, rfl, by simp, fun _ => rfl⟩
+  case tuple =>
+    obtain ⟨hk, rfl⟩ := ha
+    exact ⟨by simp [Cell.isAtom, hk], rfl, by simp, fun _ => rfl⟩
+
+theorem atomOp?_none {c : Cell} (ha : atomOp? c = none) : c.isAtom = false := by
+  obtain ⟨t, ks⟩ := c
+  cases t <;> simp [atomOp?, Cell.isAtom] at ha ⊢
+  case bool b => cases b <;> simp at ha
+  case tuple => exact ha
+
+theorem push_old {H : Heap} {c : Cell} {i : Nat} (hi : i < H.size) : (H.push c)[i]? = H[i]? := by
+  simp [Array.getElem?_push, Nat.ne_of_lt hi]
+
+theorem Post.alloc {m : PMemo} {v : VM} {O : List Ref} {op : Op} {c : Cell} (s : Sim h m v.heap v.memo O)
+    (hne : op ≠ .stop) (hst : v.step {} op = .ok (v.alloc c)) : Post h m v O [op] m (v.alloc c) :=
+  ⟨fun rest => by simpa using runOps_cons hne hst, (s.alloc c).1, MPre.refl _, (s.alloc c).2, fun i hi => push_old hi⟩
+
+theorem indexOf?_none {x : Ref} : ∀ {l : List Ref}, indexOf? x l = none → x ∉ l := by
+  intro l
+  induction l with
+  | nil => intro _; simp
+  | cons y ys ih =>
+    intro hn
+    simp only [indexOf?] at hn
+    split at hn
+    · cases hn
+    · rename_i e
+      cases hq : indexOf? x ys with
+      | none => simp; exact ⟨fun e' => e e'.symm, ih hq⟩
+      | some j => simp [hq] at hn
+
+
+theorem Ext.ofFrame {H H' : Heap} {M M' : Array Ref} (hs : H.size ≤ H'.size) (hm : ∀ (i : Nat) (y : Ref), M[i]? = some y → M'[i]? = some y)
+    (hf : ∀ i, i < H.size → H'[i]? = H[i]?) : Ext H M H' M' :=
+  ⟨hs, hm, fun k c hk _ => by rw [hf k (get_lt hk)]; exact hk⟩
+
+theorem memo_fresh {m : PMemo} {H : Heap} {M : Array Ref} {O : List Ref} (s : Sim h m H M O) (i : Nat) : M[i]? ≠ some H.size := by
+  intro e
+  obtain ⟨c', hc', _⟩ := s.nonatom' i _ e
+  exact Nat.lt_irrefl _ (get_lt hc')
+
+/-- allocate the cell `cn` for `x` and memoise it -/
+theorem Sim.allocMemo {m : PMemo} {H : Heap} {M : Array Ref} {O : List Ref} (s : Sim h m H M O) {x : Ref} {cn : Cell}
+    (hx : x ∉ m) (hna : NonAtom h x) (hcn : cn.isAtom = false)
+    (hc : x ∉ O → Complete h (m ++ [x]) (H.push cn) (M.push H.size) x H.size) :
+    Sim h (m ++ [x]) (H.push cn) (M.push H.size) O ∧ Rel h (m ++ [x]) (H.push cn) (M.push H.size) x H.size := by
+  refine ⟨(s.alloc cn).1.memoize hx hna (by simp) hcn (fun i => ?_) hc, Or.inr ⟨m.length, by simp, by simp [s.len]⟩⟩
+  exact memo_fresh s i
+
+theorem step_memoize {v : VM} {y : Ref} {S : List Item} (hs : v.stack = .ref y :: S) :
+    v.step {} .memoize = .ok { v with memo := v.memo.push y } := by
+  simp [VM.step, VM.topRef, hs, bind, Except.bind, pure, Except.pure]
+
+theorem splitMark_refs (S : List Item) : ∀ (l acc : List Ref),
+    splitMark (l.map Item.ref ++ Item.mark :: S) acc = some (l.reverse ++ acc, S) := by
+  intro l
+  induction l with
+  | nil => intro acc; simp [splitMark]
+  | cons a l ih => intro acc; simp [splitMark, ih]
+
+theorem popMark_refs {v : VM} {ys : List Ref} {S : List Item} (hs : v.stack = ys.reverse.map Item.ref ++ Item.mark :: S) :
+    v.popMark = .ok (ys, { v with stack := S }) := by
+  have := splitMark_refs S ys.reverse []
+  simp only [List.reverse_reverse, List.append_nil] at this
+  simp only [VM.popMark, hs, this]
+
+/-- the memo of the new state contains `x ↦ y` at the index where it was put, whatever was added later -/
+theorem chunks_single {l : List Ref} {n : Nat} (h0 : l ≠ []) (hn : l.length ≤ n) : chunks n l = [l] := by
+  unfold chunks
+  cases l with
+  | nil => exact absurd rfl h0
+  | cons a t =>
+    have : chunksAux n t.length ([] : List Ref) = [] := by cases t.length <;> simp [chunksAux]
+    simp [chunksAux, List.take_of_length_le hn, List.drop_of_length_le hn, this]
+
+
+/-- state after `EMPTY_x MEMOIZE` -/
+def opened (v : VM) (cn : Cell) : VM :=
+  { heap := v.heap.push cn, stack := .ref v.heap.size :: v.stack, memo := v.memo.push v.heap.size }
+
+theorem run_opened {v : VM} {op : Op} {cn : Cell} (hne : op ≠ .stop) (hst : v.step {} op = .ok (v.alloc cn)) (rest : List Op) :
+    runOps {} (op :: .memoize :: rest) v = runOps {} rest (opened v cn) := by
+  rw [runOps_cons hne hst, runOps_cons (by simp) (step_memoize (v := v.alloc cn) (y := v.heap.size) (S := v.stack) rfl)]
+  rfl
+
+/-- closing a list / dict: `y` still holds the empty cell, gets its kids -/
+theorem close_container {m m1 : PMemo} {v v3 : VM} {O : List Ref} {x : Ref} {c : Cell} {ys : List Ref} {t : Tag} {cn : Cell}
+    (hc : h[x]? = some c) (ht : c.tag = t) (hcn : cn = ⟨t, ys⟩) (hna : cn.isAtom = false)
+    (s3 : Sim h m1 v3.heap v3.memo (x :: O)) (hpre : MPre (m ++ [x]) m1) (hlen : m.length = v.memo.size)
+    (hmemo : ∀ (i : Nat) (z : Ref), (v.memo.push v.heap.size)[i]? = some z → v3.memo[i]? = some z)
+    (hrel : Pointwise (Rel h m1 v3.heap v3.memo) c.kids ys) :
+    Sim h m1 (v3.heap.setIfInBounds v.heap.size cn) v3.memo O := by
+  have hi : m1[m.length]? = some x := hpre m.length x (by simp)
+  have hi' : v3.memo[m.length]? = some v.heap.size := hmemo m.length _ (by simp [hlen])
+  obtain ⟨c0, h0, ha0⟩ := s3.nonatom' _ _ hi'
+  refine s3.close hi hi' hna ⟨c, cn, hc, by simp [get_lt h0], by rw [hcn, ht], ?_⟩
+  rw [hcn]
+  exact Pointwise.imp (fun p q hpq => Rel.set hpq h0 ha0) hrel
+
+
+theorem step_appends {v : VM} {ys k0 : List Ref} {y : Ref} {S : List Item}
+    (hs : v.stack = ys.reverse.map Item.ref ++ Item.mark :: .ref y :: S) (hy : v.heap[y]? = some ⟨.list, k0⟩) :
+    v.step {} .appends = .ok { v with heap := v.heap.setIfInBounds y ⟨.list, k0 ++ ys⟩, stack := .ref y :: S } := by
+  simp [VM.step, popMark_refs hs, VM.topRef, VM.extend, VM.cell, hy, VM.setCell, bind, Except.bind, pure, Except.pure]
+
+theorem step_append {v : VM} {y1 : Ref} {k0 : List Ref} {y : Ref} {S : List Item}
+    (hs : v.stack = .ref y1 :: .ref y :: S) (hy : v.heap[y]? = some ⟨.list, k0⟩) :
+    v.step {} .append = .ok { v with heap := v.heap.setIfInBounds y ⟨.list, k0 ++ [y1]⟩, stack := .ref y :: S } := by
+  simp [VM.step, VM.popRef, hs, VM.topRef, VM.extend, VM.cell, hy, VM.setCell, bind, Except.bind, pure, Except.pure]
+
+/-- common end of the list / dict cases: the items were saved from the opened state (possibly under a MARK), one
+    opcode then rewrote the container cell -/
+theorem container_post {m m1 : PMemo} {v v2 v3 v4 : VM} {O : List Ref} {x : Ref} {c : Cell} {ys : List Ref} {cn cn0 : Cell}
+    {op0 opc : Op} {pre o1 : List Op}
+    (s : Sim h m v.heap v.memo O) (hc : h[x]? = some c) (hcn : cn = ⟨c.tag, ys⟩) (hna : cn.isAtom = false)
+    (h2h : v2.heap = (opened v cn0).heap) (h2m : v2.memo = (opened v cn0).memo)
+    (hrun1 : ∀ rest, runOps {} (op0 :: .memoize :: (pre ++ rest)) v = runOps {} rest v2)
+    (p3 : Post h (m ++ [x]) v2 (x :: O) o1 m1 v3)
+    (r3 : Pointwise (Rel h m1 v3.heap v3.memo) c.kids ys)
+    (hstep : v3.step {} opc = .ok v4) (hne : opc ≠ .stop)
+    (h4h : v4.heap = v3.heap.setIfInBounds v.heap.size cn) (h4m : v4.memo = v3.memo) (h4s : v4.stack = .ref v.heap.size :: v.stack) :
+    ∃ v' y, Post h m v O (op0 :: .memoize :: (pre ++ o1 ++ [opc])) m1 v' ∧ v'.stack = .ref y :: v.stack ∧
+      Rel h m1 v'.heap v'.memo x y := by
+  have hmemo : ∀ (i : Nat) (z : Ref), (v.memo.push v.heap.size)[i]? = some z → v3.memo[i]? = some z := by
+    intro i z hz; exact p3.ext.memo i z (by rw [h2m]; exact hz)
+  have s4 : Sim h m1 v4.heap v4.memo O := by
+    rw [h4h, h4m]
+    exact close_container hc rfl hcn hna p3.sim p3.pre s.len hmemo r3
+  have hpre : MPre m m1 := (MPre.append m [x]).trans p3.pre
+  have hsz : v.heap.size + 1 = v2.heap.size := by rw [h2h]; simp [opened]
+  have hframe : ∀ i, i < v.heap.size → v4.heap[i]? = v.heap[i]? := by
+    intro i hi
+    have hne' : v.heap.size ≠ i := by omega
+    rw [h4h]
+    simp only [Array.getElem?_setIfInBounds_ne hne']
+    rw [p3.frame i (by omega), h2h]
+    exact push_old hi
+  refine ⟨v4, v.heap.size, ⟨?_, s4, hpre, ?_, hframe⟩, h4s, ?_⟩
+  · intro rest
+    have : op0 :: Op.memoize :: (pre ++ o1 ++ [opc]) ++ rest = op0 :: Op.memoize :: (pre ++ (o1 ++ (opc :: rest))) := by simp
+    rw [this, hrun1, p3.run, runOps_cons hne hstep]
+  · refine Ext.ofFrame ?_ ?_ hframe
+    · rw [h4h]; simp; have := p3.ext.size; omega
+    · intro i z hz
+      rw [h4m]
+      exact hmemo i z ((Ext.pushMemo v.heap v.memo v.heap.size).memo i z hz)
+  · exact Or.inr ⟨m.length, p3.pre _ _ (by simp), by rw [h4m]; exact hmemo _ _ (by simp [s.len])⟩
+
+
+theorem opened_sim {m : PMemo} {v : VM} {O : List Ref} {x : Ref} {c : Cell} {cn0 : Cell} (s : Sim h m v.heap v.memo O)
+    (hc : h[x]? = some c) (ho : opens c.tag = true) (hx : x ∉ m) (hcn0 : cn0.isAtom = false) :
+    Sim h (m ++ [x]) (opened v cn0).heap (opened v cn0).memo (x :: O) := by
+  have hna : NonAtom h x := ⟨c, hc, by
+    obtain ⟨t, ks⟩ := c
+    cases t <;> simp [opens] at ho <;> rfl⟩
+  exact ((s.open hc ho).allocMemo hx hna hcn0 (fun hO => absurd List.mem_cons_self hO)).1
+
+theorem save_list_ok {sv : Saver} (ih : SaveOK h sv) {x : Ref} {m : PMemo} {c : Cell} (hc : h[x]? = some c)
+    (htag : c.tag = .list) (hlen : c.kids.length ≤ batchSize) (hx : x ∉ m) {o : List Op} {m1 : PMemo}
+    (hb : batchExact sv 1 .appends .append false true c.kids (m ++ [x]) = .ok (o, m1))
+    (v : VM) (O : List Ref) (s : Sim h m v.heap v.memo O) :
+    ∃ v' y, Post h m v O (Op.emptyList :: .memoize :: o) m1 v' ∧ v'.stack = .ref y :: v.stack ∧
+      Rel h m1 v'.heap v'.memo x y := by
+  have ho : opens c.tag = true := by simp [htag, opens]
+  have s2 := opened_sim (cn0 := ⟨.list, []⟩) s hc ho hx rfl
+  have hrun0 : ∀ rest, runOps {} (Op.emptyList :: .memoize :: rest) v = runOps {} rest (opened v ⟨.list, []⟩) :=
+    run_opened (by simp) rfl
+  have hy2 : (opened v ⟨.list, []⟩).heap[v.heap.size]? = some ⟨.list, []⟩ := by simp [opened]
+  unfold batchExact at hb
+  simp only [bind, Except.bind, pure, Except.pure] at hb
+  split at hb
+  · -- no items
+    rename_i hemp
+    cases hb
+    have hk : c.kids = [] := by simpa using hemp
+    have hna : NonAtom h x := ⟨c, hc, by simp [Cell.isAtom, htag]⟩
+    obtain ⟨s', r'⟩ := s.allocMemo (cn := ⟨.list, []⟩) hx hna rfl
+      (fun _ => ⟨c, ⟨.list, []⟩, hc, by simp, htag.symm, by rw [hk]; exact Pointwise.nil⟩)
+    refine ⟨opened v ⟨.list, []⟩, v.heap.size, ⟨fun rest => hrun0 rest, s', MPre.append _ _, ?_, fun i hi => push_old hi⟩, rfl, r'⟩
+    exact Ext.ofFrame (by simp [opened]) (Ext.pushMemo v.heap v.memo v.heap.size).memo (fun i hi => push_old hi)
+  · rename_i hemp
+    split at hb
+    · -- one item: `item APPEND`
+      rename_i hone
+      split at hb
+      · cases hb
+      · rename_i r1 h1
+        obtain ⟨o1, m1'⟩ := r1
+        simp only at hb
+        cases hb
+        obtain ⟨v3, ys, p3, st3, r3⟩ := saveAll_sim ih _ _ _ _ h1 (opened v ⟨.list, []⟩) (x :: O) s2
+        have hl : c.kids.length = 1 := by simpa using hone
+        obtain ⟨y1, rfl⟩ : ∃ y1, ys = [y1] := by
+          have := r3.length_eq
+          rw [hl] at this
+          cases ys with
+          | nil => simp at this
+          | cons a t => cases t with
+            | nil => exact ⟨a, rfl⟩
+            | cons _ _ => simp at this
+        have hy3 : v3.heap[v.heap.size]? = some ⟨.list, []⟩ := by
+          rw [p3.frame _ (by simp [opened])]; exact hy2
+        have hst : v3.step {} .append = .ok ⟨v3.heap.setIfInBounds v.heap.size ⟨.list, [] ++ [y1]⟩,
+            .ref v.heap.size :: v.stack, v3.memo⟩ := step_append (by rw [st3]; rfl) hy3
+        have := container_post (pre := []) (op0 := .emptyList) s hc (cn := ⟨.list, [] ++ [y1]⟩) (by simp [htag]) rfl rfl rfl
+          (fun rest => hrun0 rest) p3 r3 hst (by simp) rfl rfl rfl
+        simpa using this
+    · -- several items: `MARK items APPENDS`
+      rename_i hone
+      have hne : c.kids ≠ [] := by simpa using hemp
+      rw [chunks_single hne (by simpa using hlen)] at hb
+      simp only [saveBatches, bind, Except.bind, pure, Except.pure] at hb
+      split at hb
+      · cases hb
+      · rename_i r0 h0
+        obtain ⟨ob, mb⟩ := r0
+        split at h0
+        · cases h0
+        · rename_i r1 h1
+          obtain ⟨o1, m1'⟩ := r1
+          simp only at h0
+          cases h0
+          simp only at hb
+          cases hb
+          let v2 : VM := { opened v ⟨.list, []⟩ with stack := .mark :: (opened v ⟨.list, []⟩).stack }
+          obtain ⟨v3, ys, p3, st3, r3⟩ := saveAll_sim ih _ _ _ _ h1 v2 (x :: O) s2
+          have hy3 : v3.heap[v.heap.size]? = some ⟨.list, []⟩ := by
+            rw [p3.frame _ (by simp [v2, opened])]; exact hy2
+          have hst : v3.step {} .appends = .ok ⟨v3.heap.setIfInBounds v.heap.size ⟨.list, [] ++ ys⟩,
+              .ref v.heap.size :: v.stack, v3.memo⟩ := step_appends (by rw [st3]; rfl) hy3
+          have hrun1 : ∀ rest, runOps {} (Op.emptyList :: .memoize :: ([Op.mark] ++ rest)) v = runOps {} rest v2 := by
+            intro rest
+            rw [hrun0]
+            exact runOps_cons (by simp) rfl
+          have := container_post (v2 := v2) (cn0 := ⟨.list, []⟩) (pre := [.mark]) (op0 := .emptyList) s hc (cn := ⟨.list, [] ++ ys⟩)
+            (by simp [htag]) rfl rfl rfl
+            hrun1 p3 r3 hst (by simp) rfl rfl rfl
+          simpa using this
+
+
+theorem run_pops : ∀ (l : List Ref) (v : VM) (S : List Item) (rest : List Op), v.stack = l.map Item.ref ++ S →
+    runOps {} (List.replicate l.length Op.pop ++ rest) v = runOps {} rest { v with stack := S } := by
+  intro l
+  induction l with
+  | nil => intro v S rest hs; simp at hs ⊢; rw [← hs]
+  | cons a l ih =>
+    intro v S rest hs
+    have hst : v.step {} .pop = .ok { v with stack := l.map Item.ref ++ S } := by
+      simp [VM.step, hs, pure, Except.pure]
+    simp only [List.length_cons, List.replicate_succ, List.cons_append]
+    rw [runOps_cons (by simp) hst]
+    exact ih _ S rest rfl
+
+/-- a state differing from `v` only in the stack simulates the same -/
+theorem Post.restack {m m' : PMemo} {v v' : VM} {O : List Ref} {ops : List Op} (S : List Item)
+    (p : Post h m v O ops m' v') (hrun : ∀ rest, runOps {} (ops ++ rest) v = runOps {} rest { v' with stack := S }) :
+    Post h m v O ops m' { v' with stack := S } :=
+  ⟨hrun, p.sim, p.pre, p.ext, p.frame⟩
+
+theorem step_tupleN {v : VM} {ys : List Ref} {S : List Item} (hs : v.stack = ys.reverse.map Item.ref ++ S) :
+    (ys.length = 1 → v.step {} .tuple1 = .ok (VM.alloc { v with stack := S } ⟨.tuple, ys⟩)) ∧
+    (ys.length = 2 → v.step {} .tuple2 = .ok (VM.alloc { v with stack := S } ⟨.tuple, ys⟩)) ∧
+    (ys.length = 3 → v.step {} .tuple3 = .ok (VM.alloc { v with stack := S } ⟨.tuple, ys⟩)) := by
+  refine ⟨?_, ?_, ?_⟩ <;> intro hl
+  · match ys, hl with
+    | [a], _ => simp at hs; simp [VM.step, VM.popRef, hs, bind, Except.bind, pure, Except.pure]
+  · match ys, hl with
+    | [a, b], _ => simp at hs; simp [VM.step, VM.popRef, hs, bind, Except.bind, pure, Except.pure]
+  · match ys, hl with
+    | [a, b, c], _ => simp at hs; simp [VM.step, VM.popRef, hs, bind, Except.bind, pure, Except.pure]
+
+theorem step_tupleM {v : VM} {ys : List Ref} {S : List Item} (hs : v.stack = ys.reverse.map Item.ref ++ Item.mark :: S) :
+    v.step {} .tuple = .ok (VM.alloc { v with stack := S } ⟨.tuple, ys⟩) := by
+  simp [VM.step, popMark_refs hs, bind, Except.bind, pure, Except.pure]
+
+theorem step_popMarkM {v : VM} {ys : List Ref} {S : List Item} (hs : v.stack = ys.reverse.map Item.ref ++ Item.mark :: S) :
+    v.step {} .popMark = .ok { v with stack := S } := by
+  simp [VM.step, popMark_refs hs, bind, Except.bind, pure, Except.pure]
+
+theorem step_get {v : VM} {i : Nat} {z : Ref} (hz : v.memo[i]? = some z) :
+    v.step {} (.get i) = .ok { v with stack := .ref z :: v.stack } := by
+  simp [VM.step, hz, pure, Except.pure]
+
+/-- the end of the tuple case: the elements are on the stack (above a MARK when there are more than three) -/
+theorem tuple_finish {m m1 : PMemo} {v v3 : VM} {O : List Ref} {x : Ref} {c : Cell} {ys : List Ref} {o : List Op}
+    (hc : h[x]? = some c) (htag : c.tag = .tuple) (hne : c.kids ≠ [])
+    (p3 : Post h m v O o m1 v3) (r3 : Pointwise (Rel h m1 v3.heap v3.memo) c.kids ys) (S : List Item)
+    {mk : List Op} (hmk : ∀ rest, runOps {} (mk ++ rest) v3 = runOps {} rest (VM.alloc { v3 with stack := S } ⟨.tuple, ys⟩))
+    (hx : x ∉ m1) :
+    ∃ v' y, Post h m v O (o ++ mk ++ [.memoize]) (m1 ++ [x]) v' ∧ v'.stack = .ref y :: S ∧
+      Rel h (m1 ++ [x]) v'.heap v'.memo x y := by
+  have hna : NonAtom h x := ⟨c, hc, by
+    cases hk : c.kids with
+    | nil => exact absurd hk hne
+    | cons a t => simp [Cell.isAtom, htag, hk]⟩
+  have hys : ys ≠ [] := by
+    intro e; subst e
+    have := r3.length_eq
+    simp at this; exact hne this
+  have hcn : (Cell.mk Tag.tuple ys).isAtom = false := by
+    cases ys with
+    | nil => exact absurd rfl hys
+    | cons a t => simp [Cell.isAtom]
+  obtain ⟨s', r'⟩ := p3.sim.allocMemo (cn := ⟨.tuple, ys⟩) hx hna hcn (fun _ => ⟨c, ⟨.tuple, ys⟩, hc, by simp, htag.symm,
+    Pointwise.imp (fun a b hab => Rel.mono hab (MPre.append _ _)
+      ((p3.sim.alloc _).2.trans (Ext.pushMemo _ _ _))) r3⟩)
+  let v4 : VM := ⟨v3.heap.push ⟨.tuple, ys⟩, .ref v3.heap.size :: S, v3.memo.push v3.heap.size⟩
+  refine ⟨v4, v3.heap.size, ⟨?_, s', p3.pre.trans (MPre.append _ _), ?_, ?_⟩, rfl, r'⟩
+  · intro rest
+    rw [List.append_assoc, List.append_assoc, p3.run, hmk]
+    exact runOps_cons (by simp) (step_memoize (v := VM.alloc { v3 with stack := S } ⟨.tuple, ys⟩) (y := v3.heap.size) (S := S) rfl)
+  · exact p3.ext.trans ((p3.sim.alloc _).2.trans (Ext.pushMemo _ _ _))
+  · intro i hi
+    show (v3.heap.push _)[i]? = _
+    rw [push_old (Nat.lt_of_lt_of_le hi p3.ext.size), p3.frame i hi]
+
+
+theorem Post.under {m m1 : PMemo} {v vm v3 : VM} {O : List Ref} {pre o : List Op} (hh : vm.heap = v.heap) (hm : vm.memo = v.memo)
+    (hrun : ∀ rest, runOps {} (pre ++ rest) v = runOps {} rest vm) (p : Post h m vm O o m1 v3) :
+    Post h m v O (pre ++ o) m1 v3 :=
+  ⟨fun rest => by rw [List.append_assoc, hrun, p.run], p.sim, p.pre, by rw [← hh, ← hm]; exact p.ext,
+   by rw [← hh]; exact p.frame⟩
+
+theorem tuple_rec_finish {m m1 : PMemo} {v v3 : VM} {O : List Ref} {x : Ref} {o cl : List Op} {i : Nat}
+    (p3 : Post h m v O o m1 v3) (hi : memoIdx m1 x = some i) (S : List Item)
+    (hcl : ∀ rest, runOps {} (cl ++ rest) v3 = runOps {} rest { v3 with stack := S }) :
+    ∃ v' y, Post h m v O (o ++ cl ++ [.get i]) m1 v' ∧ v'.stack = .ref y :: S ∧ Rel h m1 v'.heap v'.memo x y := by
+  have hx : m1[i]? = some x := indexOf?_some hi
+  have hlt : i < v3.memo.size := by rw [← p3.sim.len]; exact (List.getElem?_eq_some_iff.mp hx).1
+  refine ⟨{ v3 with stack := .ref v3.memo[i] :: S }, v3.memo[i], ⟨?_, p3.sim, p3.pre, p3.ext, p3.frame⟩, rfl,
+    Or.inr ⟨i, hx, by simp [hlt]⟩⟩
+  intro rest
+  rw [List.append_assoc, List.append_assoc, p3.run, hcl]
+  exact runOps_cons (by simp) (step_get (v := { v3 with stack := S }) (by simp [hlt]))
+
+theorem leaf_ok {m : PMemo} {v : VM} {O : List Ref} {x : Ref} {c : Cell} {op : Op} (s : Sim h m v.heap v.memo O)
+    (hc : h[x]? = some c) (hk : c.kids = []) (hcna : c.isAtom = false) (hne : op ≠ .stop)
+    (hst : v.step {} op = .ok (v.alloc ⟨c.tag, []⟩)) (hx : x ∉ m) :
+    ∃ v' y, Post h m v O [op, .memoize] (m ++ [x]) v' ∧ v'.stack = .ref y :: v.stack ∧
+      Rel h (m ++ [x]) v'.heap v'.memo x y := by
+  have hcn : (Cell.mk c.tag []).isAtom = false := by
+    obtain ⟨t, ks⟩ := c
+    simp at hk; subst hk; exact hcna
+  obtain ⟨s', r'⟩ := s.allocMemo (cn := ⟨c.tag, []⟩) hx ⟨c, hc, hcna⟩ hcn
+    (fun _ => ⟨c, ⟨c.tag, []⟩, hc, by simp, rfl, by rw [hk]; exact Pointwise.nil⟩)
+  refine ⟨opened v ⟨c.tag, []⟩, v.heap.size, ⟨fun rest => run_opened hne hst rest, s', MPre.append _ _, ?_,
+    fun i hi => push_old hi⟩, rfl, r'⟩
+  exact Ext.ofFrame (by simp [opened]) (Ext.pushMemo v.heap v.memo v.heap.size).memo (fun i hi => push_old hi)
+
+def okCell (c : Cell) : Prop :=
+  match c.tag with
+  | .str _ | .bytes _ => c.kids = []
+  | .list => c.kids.length ≤ batchSize
+  | .dict | .set | .frozenset | .global | .obj .. => False
+  | _ => True
+
+/-- the fragment of heaps for which the round trip is proved: atoms, strings, bytes, tuples and lists (of at most
+    `batchSize` elements) — with arbitrary sharing and arbitrary cycles -/
+def Supported (h : Heap) : Prop := ∀ (i : Nat) (c : Cell), h[i]? = some c → okCell c
+
+theorem save_ok (hS : Supported h) : ∀ fuel, SaveOK h (save h fuel) := by
+  intro fuel
+  induction fuel with
+  | zero => intro x m ops m' hs; simp [save] at hs
+  | succ fuel ih =>
+    intro x m ops m' hs v O s
+    unfold save at hs
+    split at hs
+    · cases hs
+    · rename_i c hc
+      have hok := hS x c hc
+      split at hs
+      · -- atom
+        rename_i op hop
+        cases hs
+        obtain ⟨ha, ha', hne, hst⟩ := atomOp?_some hop
+        exact ⟨v.alloc ⟨c.tag, []⟩, v.heap.size, Post.alloc s hne (hst v), rfl,
+          Or.inl ⟨c, ⟨c.tag, []⟩, hc, by simp [VM.alloc], ha, ha', rfl⟩⟩
+      · rename_i hop
+        have hcna := atomOp?_none hop
+        split at hs
+        · -- memo hit
+          rename_i i hi
+          cases hs
+          have := tuple_rec_finish (o := []) (cl := []) (x := x) (Post.refl s) hi v.stack (fun rest => rfl)
+          simpa using this
+        · rename_i hmi
+          have hx : x ∉ m := indexOf?_none hmi
+          split at hs
+          · -- str
+            rename_i sv htag
+            cases hs
+            have hk : c.kids = [] := by simpa [okCell, htag] using hok
+            exact leaf_ok s hc hk hcna (by simp) (by rw [htag]; rfl) hx
+          · -- bytes
+            rename_i sv htag
+            cases hs
+            have hk : c.kids = [] := by simpa [okCell, htag] using hok
+            exact leaf_ok s hc hk hcna (by simp) (by rw [htag]; rfl) hx
+          · -- tuple
+            rename_i htag
+            simp only [bind, Except.bind, pure, Except.pure] at hs
+            have hne : c.kids ≠ [] := by
+              intro e; simp [Cell.isAtom, htag, e] at hcna
+            have hpos : 0 < c.kids.length := List.length_pos_iff.mpr hne
+            split at hs
+            · cases hs
+            · rename_i r hsa
+              obtain ⟨o, m1⟩ := r
+              simp only at hs
+              by_cases hn : c.kids.length ≤ 3
+              · obtain ⟨v3, ys, p3, st3, r3⟩ := saveAll_sim ih _ _ _ _ hsa v O s
+                have hlen := r3.length_eq
+                split at hs
+                · rename_i i hi
+                  cases hs
+                  simp only [hn, if_true]
+                  have := tuple_rec_finish (cl := List.replicate c.kids.length Op.pop) p3 hi v.stack (fun rest => by
+                    rw [hlen, ← List.length_reverse]
+                    exact run_pops ys.reverse v3 v.stack rest (by rw [st3]))
+                  simpa using this
+                · rename_i hmi1
+                  cases hs
+                  have hx1 := indexOf?_none hmi1
+                  obtain ⟨t1, t2, t3⟩ := step_tupleN (v := v3) (ys := ys) (S := v.stack) st3
+                  have h123 : c.kids.length = 1 ∨ c.kids.length = 2 ∨ c.kids.length = 3 := by omega
+                  rcases h123 with hl | hl | hl
+                  · simp only [hl]
+                    exact tuple_finish (mk := [.tuple1]) hc htag hne p3 r3 v.stack
+                      (fun rest => runOps_cons (by simp) (t1 (by omega))) hx1
+                  · simp only [hl]
+                    exact tuple_finish (mk := [.tuple2]) hc htag hne p3 r3 v.stack
+                      (fun rest => runOps_cons (by simp) (t2 (by omega))) hx1
+                  · simp only [hl]
+                    exact tuple_finish (mk := [.tuple3]) hc htag hne p3 r3 v.stack
+                      (fun rest => runOps_cons (by simp) (t3 (by omega))) hx1
+              · let vm : VM := { v with stack := .mark :: v.stack }
+                obtain ⟨v3, ys, p3', st3, r3⟩ := saveAll_sim ih _ _ _ _ hsa vm O s
+                have p3 : Post h m v O ([Op.mark] ++ o) m1 v3 :=
+                  Post.under (vm := vm) rfl rfl (fun rest => runOps_cons (by simp) rfl) p3'
+                split at hs
+                · rename_i i hi
+                  cases hs
+                  simp only [hn, if_false]
+                  have := tuple_rec_finish (cl := [.popMark]) p3 hi v.stack
+                    (fun rest => runOps_cons (by simp) (step_popMarkM st3))
+                  simpa using this
+                · rename_i hmi1
+                  cases hs
+                  have hx1 := indexOf?_none hmi1
+                  obtain ⟨k, hk⟩ : ∃ k, c.kids.length = k + 4 := ⟨c.kids.length - 4, by omega⟩
+                  simp only [hk]
+                  have := tuple_finish (mk := [.tuple]) hc htag hne p3 r3 v.stack
+                    (fun rest => runOps_cons (by simp) (step_tupleM st3)) hx1
+                  simpa using this
+          · -- list
+            rename_i htag
+            simp only [bind, Except.bind, pure, Except.pure] at hs
+            split at hs
+            · cases hs
+            · rename_i r hb
+              obtain ⟨o, m1⟩ := r
+              simp only at hs
+              cases hs
+              exact save_list_ok ih hc htag (by simpa [okCell, htag] using hok) hx hb v O s
+          · rename_i htag; simp [okCell, htag] at hok
+          · rename_i htag; simp [okCell, htag] at hok
+          · rename_i htag; simp [okCell, htag] at hok
+          · rename_i htag; simp [okCell, htag] at hok
+          · rename_i htag; simp [okCell, htag] at hok
+          · cases hs
+
+
+/-! ### from the final simulation to the isomorphism -/
+
+theorem Pointwise.imp_mem {α β : Type} {R S : α → β → Prop} {l : List α} {l' : List β} (hp : Pointwise R l l')
+    (hRS : ∀ a b, a ∈ l → b ∈ l' → R a b → S a b) : Pointwise S l l' := by
+  induction hp with
+  | nil => exact Pointwise.nil
+  | cons hab _ ih =>
+    exact Pointwise.cons (hRS _ _ List.mem_cons_self List.mem_cons_self hab)
+      (ih (fun a b ha hb => hRS a b (List.mem_cons_of_mem _ ha) (List.mem_cons_of_mem _ hb)))
+
+theorem Pointwise.exists_left {α β : Type} {R : α → β → Prop} {l : List α} {l' : List β} (hp : Pointwise R l l') :
+    ∀ b, b ∈ l' → ∃ a, a ∈ l ∧ R a b := by
+  induction hp with
+  | nil => intro b hb; cases hb
+  | cons hab _ ih =>
+    intro b hb
+    rcases List.mem_cons.mp hb with e | e
+    · subst e; exact ⟨_, List.mem_cons_self, hab⟩
+    · obtain ⟨a, ha, hr⟩ := ih b e
+      exact ⟨a, List.mem_cons_of_mem _ ha, hr⟩
+
+theorem Pointwise.exists_right {α β : Type} {R : α → β → Prop} {l : List α} {l' : List β} (hp : Pointwise R l l') :
+    ∀ a, a ∈ l → ∃ b, b ∈ l' ∧ R a b := by
+  induction hp with
+  | nil => intro a ha; cases ha
+  | cons hab _ ih =>
+    intro a ha
+    rcases List.mem_cons.mp ha with e | e
+    · subst e; exact ⟨_, List.mem_cons_self, hab⟩
+    · obtain ⟨b, hb, hr⟩ := ih a e
+      exact ⟨b, List.mem_cons_of_mem _ hb, hr⟩
+
+/-- when nothing is open any more, the memo correspondence is an isomorphism of the reachable parts -/
+theorem iso_of_sim {m : PMemo} {H : Heap} {M : Array Ref} {r y : Ref} (s : Sim h m H M []) (hr : Rel h m H M r y) :
+    ∃ R, Iso h r H y R := by
+  let Z : Ref → Ref → Prop := fun x z => ∃ i : Nat, m[i]? = some x ∧ M[i]? = some z
+  let R : Ref → Ref → Prop := fun x z => Z x z ∧ Reach h r x ∧ Reach H y z
+  have hZna : ∀ x z, Z x z → NonAtom h x ∧ NonAtom H z := by
+    rintro x z ⟨i, hi, hi'⟩
+    exact ⟨s.nonatom x (List.mem_of_getElem? hi), s.nonatom' i z hi'⟩
+  have relZ : ∀ k k', Rel h m H M k k' → (NonAtom h k ∨ NonAtom H k') → Z k k' := by
+    rintro k k' (⟨c, c', hc, hc', ha, ha', _⟩ | hz) hna
+    · rcases hna with ⟨c1, h1, n1⟩ | ⟨c1, h1, n1⟩
+      · rw [hc] at h1; cases h1; rw [ha] at n1; cases n1
+      · rw [hc'] at h1; cases h1; rw [ha'] at n1; cases n1
+    · exact hz
+  have toRelRef : ∀ k k', Rel h m H M k k' → (Z k k' → Reach h r k ∧ Reach H y k') → RelRef h H R k k' := by
+    rintro k k' (⟨c, c', hc, hc', ha, ha', ht⟩ | hz) hreach
+    · exact Or.inl ⟨c, c', hc, hc', ha, ha', ht⟩
+    · exact Or.inr ⟨hz, hreach hz⟩
+  have cells : ∀ x z, R x z → ∃ c c', h[x]? = some c ∧ H[z]? = some c' ∧ c.tag = c'.tag ∧
+      Pointwise (RelRef h H R) c.kids c'.kids := by
+    rintro x z ⟨⟨i, hi, hi'⟩, hrx, hrz⟩
+    obtain ⟨c, c', hc, hc', ht, hk⟩ := s.complete i x z hi hi' (by simp)
+    refine ⟨c, c', hc, hc', ht.symm, hk.imp_mem (fun a b ha hb hab => toRelRef a b hab (fun hz => ?_))⟩
+    exact ⟨Reach.step hrx hc ha (hZna a b hz).1, Reach.step hrz hc' hb (hZna a b hz).2⟩
+  refine ⟨R, ⟨?_, fun x z hxz => hxz.2, ?_, ?_, ?_, ?_, cells⟩⟩
+  · exact toRelRef r y hr (fun hz => ⟨Reach.root (hZna r y hz).1, Reach.root (hZna r y hz).2⟩)
+  · intro x hx
+    induction hx with
+    | root hna =>
+      have hz := relZ r y hr (Or.inl hna)
+      exact ⟨y, hz, Reach.root hna, Reach.root (hZna r y hz).2⟩
+    | step hxr hc hk hna ih =>
+      rename_i x k c
+      obtain ⟨z, hxz⟩ := ih
+      obtain ⟨c1, c', hc1, hc', _, hkids⟩ := cells x z hxz
+      rw [hc] at hc1; cases hc1
+      obtain ⟨k', hk', hrel⟩ := hkids.exists_right k hk
+      rcases hrel with ⟨c2, _, h2, _, a2, _, _⟩ | hR
+      · obtain ⟨c3, h3, n3⟩ := hna
+        rw [h2] at h3; cases h3; rw [a2] at n3; cases n3
+      · exact ⟨k', hR⟩
+  · intro z hz
+    induction hz with
+    | root hna =>
+      have hzz := relZ r y hr (Or.inr hna)
+      exact ⟨r, hzz, Reach.root (hZna r y hzz).1, Reach.root hna⟩
+    | step hzr hc hk hna ih =>
+      rename_i z k' c'
+      obtain ⟨x, hxz⟩ := ih
+      obtain ⟨c, c1, hc0, hc1, _, hkids⟩ := cells x z hxz
+      rw [hc] at hc1; cases hc1
+      obtain ⟨k, hk0, hrel⟩ := hkids.exists_left k' hk
+      rcases hrel with ⟨_, c2, _, h2, _, a2, _⟩ | hR
+      · obtain ⟨c3, h3, n3⟩ := hna
+        rw [h2] at h3; cases h3; rw [a2] at n3; cases n3
+      · exact ⟨k, hR⟩
+  · rintro x z z' ⟨⟨i, hi, hi'⟩, _⟩ ⟨⟨j, hj, hj'⟩, _⟩
+    have := nodup_index_unique s.nodup hi hj
+    subst this
+    rw [hi'] at hj'; cases hj'; rfl
+  · rintro x x' z ⟨⟨i, hi, hi'⟩, _⟩ ⟨⟨j, hj, hj'⟩, _⟩
+    have := s.inj i j z hi' hj'
+    subst this
+    rw [hi] at hj; cases hj; rfl
+
+theorem Sim.init : Sim h [] #[] #[] [] := by
+  refine ⟨rfl, List.nodup_nil, ?_, ?_, ?_, ?_, ?_⟩
+  · intro i j y hi; simp at hi
+  · intro x hx; cases hx
+  · intro i y hi; simp at hi
+  · intro i x y hi; simp at hi
+  · intro x hx; cases hx
+
+/-- **T2 for the supported fragment**: atoms, strings, bytes, tuples and lists of at most `batchSize` elements, with
+    arbitrary sharing and arbitrary cycles -/
+theorem roundtrip_supported (hS : Supported h) {r : Ref} {ops : List Op} (hd : dump h r = .ok ops) {c : Canon}
+    (hc : canon h r = some c) : Roundtrip h r := by
+  have hd0 := hd
+  unfold dump dumpWith at hd
+  simp only [bind, Except.bind, pure, Except.pure] at hd
+  split at hd
+  · cases hd
+  · rename_i res hsv
+    obtain ⟨o, m'⟩ := res
+    simp only at hd
+    cases hd
+    obtain ⟨v', y, p, hst, hrel⟩ := save_ok hS _ r [] o m' hsv {} [] Sim.init
+    have hrun : run (o ++ [.stop]) = .ok (v'.heap, y) := by
+      have := p.run [.stop]
+      simp only [run, runWith, bind, Except.bind, pure, Except.pure]
+      rw [show (({} : VM)) = ({} : VM) from rfl] at this
+      rw [this]
+      simp [runOps, VM.topRef, hst, bind, Except.bind, pure, Except.pure]
+    obtain ⟨R, iso⟩ := iso_of_sim p.sim hrel
+    exact ⟨o ++ [.stop], v'.heap, y, c, hd0, hrun, hc, iso_canon iso hc⟩
+
+end
 
 end Pepper.Pickle
